@@ -45,6 +45,7 @@ func checkC08(c *Ctx) {
 	r.Explanation = "Decides C08 with the bit-precise abstract interpreter (engine E1), in the decode-then-encode direction: for every MType, every total length 0..44 and (data frames) every FOptsLen nibble 0..15 — i.e. every order type of the length comparisons in the decoders — PHYPayload.UnmarshalBinary is interpreted on fully symbolic bytes (the three reserved MHDR bits zero as the property states, the nibble and the MType bits fixed per configuration), giving the decoder's accept condition as a BDD over the input bits; PHYPayload.MarshalBinary is then interpreted on the abstract decoded frame. Proved for all byte values of each configuration at once: (R2) wherever the decoder accepts the encoder does not refuse, (R1) the re-encoding has the same length and every bit equals the input bit. A refutation carries a concrete input frame. Lengths above 44 add no new order type (FOpts <= 15, header 12)."
 	r.Trusted = []string{"internal/absint BDD domain and operator semantics", "models of encoding/binary, append, copy, make"}
 	r.Rule("R1.wire-identity", "encode(decode(b)) = b bit for bit wherever the decoder accepts and the encoder does not refuse")
+	r.Rule("R3.total", "decoding any byte string of any length 0..44 (and re-encoding an accepted one) never runs into an index/slice/nil panic")
 	r.Rule("R2.accept-containment", "every byte string the decoder accepts can be re-encoded without error")
 	var cfgs []wireCfg
 	for mt := 0; mt < 8; mt++ {
@@ -161,9 +162,14 @@ func c08Part(c *Ctx, in *absint.Interp, T types.Type, data *absint.Slice, snap [
 		if split(err) {
 			return
 		}
+		if pe, ok := err.(absint.Panic); ok {
+			r.Bad("R3.total", name, "", "the frame decoder returns a value or an error for every input of this length", pe.Why+"; e.g. "+witnessBytes(in, pe.Cond, cf, "any input of this configuration"))
+			return
+		}
 		r.Unknown("R2.accept-containment", name, "", "decoder inside the interpreter's subset", err.Error())
 		return
 	}
+	r.OK("R3.total", name, "", "the frame decoder returns a value or an error for every input of this length", "interpreted to completion for all byte values", true)
 	de, _ := dec[0].(*absint.ErrVal)
 	A := care
 	if de != nil {
@@ -177,6 +183,10 @@ func c08Part(c *Ctx, in *absint.Interp, T types.Type, data *absint.Slice, snap [
 	in.SetLive(A)
 	if err := in.Try(func() { enc = in.CallMethod(&absint.Cell{V: recv.V}, T, "MarshalBinary") }); err != nil {
 		if split(err) {
+			return
+		}
+		if pe, ok := err.(absint.Panic); ok {
+			r.Bad("R3.total", name+"/encode", "", "re-encoding an accepted frame does not panic", pe.Why+"; e.g. "+witnessBytes(in, pe.Cond, cf, "any accepted input"))
 			return
 		}
 		r.Unknown("R2.accept-containment", name, "", "encoder inside the interpreter's subset", err.Error())
